@@ -1,6 +1,6 @@
 pub mod converter;
 
-mod fn_params;
+pub mod fn_params;
 
 use std::ops::Deref;
 
